@@ -4,6 +4,8 @@ import TinsModel.Follower.LemmasSim
 import TinsModel.Follower.LemmasRoute
 import TinsModel.Follower.LemmasDeliver
 import TinsModel.Follower.LemmasLimit
+import TinsModel.Follower.LemmasFold
+import TinsModel.Follower.LemmasStreamData
 /- Property C07 — stream follower tracks connections, directions and lifetimes: the property theorems.
    Model: TinsModel/Follower/Model.lean (code-shaped, generic in the connection key; the code is `keyOf = identOf`).
    Reference: TinsModel/Follower/Spec.lean (`refKeyOf` = family + unordered endpoint pair). -/
@@ -400,5 +402,170 @@ example : NoLiveCollision cfg0 [syn4, rst4, syn6] ∧ ¬ CollisionFree [syn4, rs
   · intro h
     have := h syn4 List.mem_cons_self syn6 (List.mem_cons_of_mem _ (List.mem_cons_of_mem _ List.mem_cons_self)) (by decide)
     revert this; decide
+
+/-! ## 9. per-flow state is a fold, and per-flow delivery is C06's theorem
+
+  `LiveThrough cfg keyOf lt F h k` : connection `k` is live after every packet of `h` (it may be created and forgotten any
+  number of times before `F`; these theorems describe one lifetime, from any state in which it is live).
+  `Stream.toClient s p` / `toServer` : which flow of `s` claims `p` (`route_correct`: the one whose destination endpoint `p` names).
+  `Flow.feed acl f ps` : `Flow::process_packet` (+ the stream's data handler) folded over `ps`;
+  `Flow.feedHanded acl f ps` : what that fold hands to the data callback, packet by packet;
+  `handedIn k c trace` : the payloads the follower's callback trace hands to the data callback of direction `c` of `k`. -/
+
+section generic
+variable {κ : Type} [DecidableEq κ]
+
+/-- **flow_is_fold.**  For as long as a connection stays live — for every interleaving with packets of other connections,
+    every configuration, every key function (so for the code's `identOf`, where under `NoLiveCollision` the key classes
+    are the real connections, and for the reference's `refKeyOf`) — the stream the follower holds for it is
+    `Stream::process_packet` folded over the connection's own packets; its client flow is `Flow::process_packet` folded over
+    exactly the packets of the connection that the client flow claims, its server flow over those the server flow
+    claims; and the payloads handed to the two data callbacks in the follower's trace are those the two flow folds hand
+    over.  (`route_correct` is the one-step form of the routing.) -/
+theorem flow_is_fold (cfg : Cfg) (keyOf : Pkt → κ) (lt : κ → κ → Bool) (h : List Pkt) (F : Follower κ) (k : κ) (s : Stream)
+    (hu : UniqueKeys F.streams) (hf : find? F.streams k = some s) (hl : LiveThrough cfg keyOf lt F h k) :
+    let sub := h.filter (fun p => decide (keyOf p = k))
+    ∃ s', find? (run cfg keyOf lt F h).1.streams k = some s' ∧ s' = s.feed sub ∧
+      s'.client = s.client.feed s.acl (sub.filter s.toClient) ∧
+      s'.server = s.server.feed s.acl (sub.filter s.toServer) ∧
+      handedIn k true (run cfg keyOf lt F h).2.flatten = Flow.feedHanded s.acl s.client (sub.filter s.toClient) ∧
+      handedIn k false (run cfg keyOf lt F h).2.flatten = Flow.feedHanded s.acl s.server (sub.filter s.toServer) := by
+  intro sub
+  obtain ⟨h1, h2⟩ := run_projects cfg keyOf lt h F k s hu hf hl
+  obtain ⟨f1, f2, _⟩ := feed_flows sub s
+  obtain ⟨t1, t2⟩ := feedTrace_handed k keyOf h s
+  refine ⟨_, h1, rfl, f1, f2, ?_, ?_⟩
+  · rw [← handedIn_flatten_filter, h2]; exact t1
+  · rw [← handedIn_flatten_filter, h2]; exact t2
+
+/-- the creating packet: a connection that is not live, whose packet may start it and which survives that packet, is
+    afterwards held as `Stream::process_packet` applied to the freshly constructed stream (`fresh`: `Stream(packet)`, the
+    new-stream callback, ESTABLISHED forcing when attached mid-stream), and the callbacks are the announcement followed
+    by those of that one application -/
+theorem lifetime_starts (cfg : Cfg) (keyOf : Pkt → κ) (lt : κ → κ → Bool) (F : Follower κ) (p : Pkt)
+    (hu : UniqueKeys F.streams) (hf : find? F.streams (keyOf p) = none) (hs : startable cfg p = true)
+    (hl : (find? (step cfg keyOf lt F p).1.streams (keyOf p)).isSome = true) :
+    find? (step cfg keyOf lt F p).1.streams (keyOf p) = some (after (fresh cfg p) p) ∧
+    (step cfg keyOf lt F p).2.filter (fun e => decide (e.key = keyOf p)) =
+      Ev.new (keyOf p) (fresh cfg p).sid (fresh cfg p).isPartial :: liveEvents (keyOf p) (fresh cfg p) p :=
+  step_creates cfg keyOf lt F p hu hf hs hl
+
+/-- **per_flow_delivery (client direction).**  Composition of `flow_is_fold` with C06's refinement theorem.  Let the
+    connection `k` be live on stream `s0`, its client flow out of the handshake with a tracker that is C06's model after
+    the arrivals `h0` of the byte stream `sc` (initial sequence number `isn`; `D` = bytes already handed over and cleared
+    by auto-cleanup) — `FlowInv`, established by `syn_starts_client` / `attach_starts` below.  Then for every capture `h`
+    through which `k` stays live and in which every data segment routed to the client flow carries bytes of `sc`
+    (`DirOK`: C06's `okAt` for each, at the offset its sequence number names) — whatever the packets of other connections
+    and of the opposite direction are —
+    * the payloads handed to the client data callback are exactly `expectedHanded`: after each segment that moves the
+      frontier the bytes from the old to the new frontier (auto-cleanup) or the whole prefix up to the new frontier;
+    * put together (auto-cleanup) they are `sc` from the old frontier up to the final frontier, each byte once;
+    * afterwards the client flow satisfies the invariant again, for the extended arrival history. -/
+theorem per_flow_delivery_client (cfg : Cfg) (keyOf : Pkt → κ) (lt : κ → κ → Bool) (h : List Pkt) (F : Follower κ) (k : κ)
+    (s0 : Stream) (hu : UniqueKeys F.streams) (hf : find? F.streams k = some s0) (hl : LiveThrough cfg keyOf lt F h k)
+    (sc : Bytes) (isn : Nat) (hs : sc.length < 2147483648) (hisn : isn < 4294967296) (h0 : List Tins.DT.SegD) (D : Bytes)
+    (inv : FlowInv s0.acl sc isn s0.client h0 D)
+    (hok : DirOK sc isn h0 ((h.filter (fun p => decide (keyOf p = k))).filter s0.toClient)) :
+    let sub := (h.filter (fun p => decide (keyOf p = k))).filter s0.toClient
+    handedIn k true (run cfg keyOf lt F h).2.flatten = expectedHanded s0.acl sc isn h0 sub ∧
+    (s0.acl = true → (handedIn k true (run cfg keyOf lt F h).2.flatten).flatten =
+        (sc.take (Tins.DT.frontier ((dirHist sc isn h0 sub).map Tins.DT.SegD.seg) sc.length)).drop
+          (Tins.DT.frontier (h0.map Tins.DT.SegD.seg) sc.length)) ∧
+    ∃ s' D', find? (run cfg keyOf lt F h).1.streams k = some s' ∧
+      FlowInv s0.acl sc isn s'.client (dirHist sc isn h0 sub) D' := by
+  intro sub
+  obtain ⟨s', g1, _, g3, _, g5, _⟩ := flow_is_fold cfg keyOf lt h F k s0 hu hf hl
+  obtain ⟨⟨D', i1⟩, i2⟩ := flow_fold_delivers s0.acl sc isn hs hisn sub s0.client h0 D inv hok
+  refine ⟨by rw [g5]; exact i2, ?_, s', D', g1, by rw [g3]; exact i1⟩
+  intro ha
+  rw [g5, i2, ha]
+  exact (expectedHanded_flatten sc isn sub h0).1
+
+/-- **per_flow_delivery (server direction)** — the same for the server flow and the server data callback. -/
+theorem per_flow_delivery_server (cfg : Cfg) (keyOf : Pkt → κ) (lt : κ → κ → Bool) (h : List Pkt) (F : Follower κ) (k : κ)
+    (s0 : Stream) (hu : UniqueKeys F.streams) (hf : find? F.streams k = some s0) (hl : LiveThrough cfg keyOf lt F h k)
+    (ss : Bytes) (isn : Nat) (hs : ss.length < 2147483648) (hisn : isn < 4294967296) (h0 : List Tins.DT.SegD) (D : Bytes)
+    (inv : FlowInv s0.acl ss isn s0.server h0 D)
+    (hok : DirOK ss isn h0 ((h.filter (fun p => decide (keyOf p = k))).filter s0.toServer)) :
+    let sub := (h.filter (fun p => decide (keyOf p = k))).filter s0.toServer
+    handedIn k false (run cfg keyOf lt F h).2.flatten = expectedHanded s0.acl ss isn h0 sub ∧
+    (s0.acl = true → (handedIn k false (run cfg keyOf lt F h).2.flatten).flatten =
+        (ss.take (Tins.DT.frontier ((dirHist ss isn h0 sub).map Tins.DT.SegD.seg) ss.length)).drop
+          (Tins.DT.frontier (h0.map Tins.DT.SegD.seg) ss.length)) ∧
+    ∃ s' D', find? (run cfg keyOf lt F h).1.streams k = some s' ∧
+      FlowInv s0.acl ss isn s'.server (dirHist ss isn h0 sub) D' := by
+  intro sub
+  obtain ⟨s', g1, _, _, g4, _, g6⟩ := flow_is_fold cfg keyOf lt h F k s0 hu hf hl
+  obtain ⟨⟨D', i1⟩, i2⟩ := flow_fold_delivers s0.acl ss isn hs hisn sub s0.server h0 D inv hok
+  refine ⟨by rw [g6]; exact i2, ?_, s', D', g1, by rw [g4]; exact i1⟩
+  intro ha
+  rw [g6, i2, ha]
+  exact (expectedHanded_flatten ss isn sub h0).1
+
+end generic
+
+/-- what the invariant says about the flow, in C06's own terms: with the cleared bytes put back, the flow's tracker
+    satisfies C06's whole specification (`specOKw`: delivered = the stream prefix up to the frontier, next expected sequence
+    number = `isn` + frontier, every buffered chunk strictly above the frontier, inside the stream and equal to it, byte
+    counter = bytes held) -/
+theorem flow_inv_is_c06_spec (acl : Bool) (s : Bytes) (isn : Nat) (f : Flow) (h : List Tins.DT.SegD) (D : Bytes)
+    (hs : s.length < 2147483648) (hisn : isn < 4294967296) (inv : FlowInv acl s isn f h D) :
+    Tins.DT.specOKw s isn (h.map Tins.DT.SegD.seg) (Tins.DT.prefixP D f.tr).obs = true ∧
+    D ++ f.tr.payload = s.take (Tins.DT.frontier (h.map Tins.DT.SegD.seg) s.length) := by
+  have h1 := Tins.Props.C06.tracker_refines_spec_wide s isn h hs hisn inv.ti.ok
+  have h2 := Tins.Props.C06.delivered_is_prefix s isn h hs hisn inv.ti.ok
+  rw [← inv.ti.tr] at h1 h2
+  exact ⟨h1, h2⟩
+
+/-- how a lifetime starts, initial SYN: after the SYN `p` that creates it (no FIN / RST on it) the client flow of the new
+    stream satisfies the invariant for the stream that starts one past the SYN's sequence number — including the data the
+    SYN itself may carry (TCP Fast Open), which has been handed over as `expectedHanded1` says -/
+theorem syn_starts_client (cfg : Cfg) (sc : Bytes) (p : Pkt) (hs : sc.length < 2147483648)
+    (hi : cfg.ignC = false) (h1 : p.syn = true) (h2 : p.rst = false) (h3 : p.fin = false)
+    (hp : pktOK sc (wrap32 (p.seq + 1)) [] p) :
+    (∃ D', FlowInv cfg.acl sc (wrap32 (p.seq + 1)) (after (Stream.ofPacket cfg p) p).client (dirStep sc (wrap32 (p.seq + 1)) [] p) D') ∧
+    (Stream.ofPacket cfg p).client.handed p = expectedHanded1 cfg.acl sc (wrap32 (p.seq + 1)) [] p := by
+  have hb : (Stream.ofPacket cfg p).toClient p = true := by
+    simp [Stream.toClient, Stream.ofPacket, Flow.configure, Flow.init, Flow.packetBelongs]
+  have ha := (after_flows (Stream.ofPacket cfg p) p).1
+  rw [hb] at ha
+  simp only [if_true] at ha
+  rw [ha]
+  have hds : p.dataSeq = wrap32 (p.seq + 1) := by unfold Pkt.dataSeq; simp [h1]
+  exact flow_step_syn cfg.acl sc (Stream.ofPacket cfg p).client p.dataSeq p hs rfl hi rfl h1 h2 h3 hp
+
+/-- how a lifetime starts, attached mid-stream: both flows of the stream created for a non-SYN packet are forced to
+    ESTABLISHED before the packet is processed, with empty trackers expecting the packet's own sequence number (client
+    direction) and its acknowledgement number (server direction): both satisfy the invariant, with no arrival yet -/
+theorem attach_starts (cfg : Cfg) (sc ss : Bytes) (p : Pkt) (hsyn : (p.syn && !p.ackf) = false)
+    (hic : cfg.ignC = false) (his : cfg.ignS = false) :
+    FlowInv cfg.acl sc p.dataSeq (fresh cfg p).client [] [] ∧ FlowInv cfg.acl ss p.ack (fresh cfg p).server [] [] := by
+  unfold fresh
+  simp only [hsyn, Bool.false_eq_true, if_false]
+  exact ⟨⟨by simp [Stream.established], hic, ⟨rfl, trivial, fun _ => rfl, fun _ => rfl⟩⟩,
+         ⟨by simp [Stream.established], his, ⟨rfl, trivial, fun _ => rfl, fun _ => rfl⟩⟩⟩
+
+/-! non-vacuity of section 9: a client stream of 5 bytes at an ISN just below the wrap point, connection 1.2.3.4:1234 ->
+    5.6.7.8:80 interleaved with another connection (same hosts, other client port); the segments arrive out of order with
+    an overlap (`[4,5]` first, then `[1,2]`, then `[2,3]`); after the SYN the hypotheses of `per_flow_delivery_client` hold and the callback is handed `[1,2]` then
+    `[3,4,5]` -/
+
+def isnX : Nat := 4294967294
+def synX : Pkt := { syn4 with seq := isnX }
+def dX (seq : Nat) (d : Bytes) (ts : Nat) : Pkt := { syn4 with flags := 24, seq := seq, ack := 501, payload := some d, ts := ts }
+def otherX : Pkt := { syn4 with sport := 1235, ts := 1001 }
+def histX : List Pkt := [otherX, dX 2 [4, 5] 1002, { otherX with flags := 24, seq := 101, payload := some [9] },
+                         dX 4294967295 [1, 2] 1003, dX 0 [2, 3] 1004]
+
+example :
+    let F := (Model.run cfg0 Follower.empty [synX]).1
+    let k := identOf synX
+    let s0 := after (Stream.ofPacket cfg0 synX) synX
+    find? F.streams k = some s0 ∧ LiveThrough cfg0 identOf Ident.lt F histX k ∧
+    DirOK [1, 2, 3, 4, 5] (wrap32 (isnX + 1)) [] ((histX.filter (fun p => decide (identOf p = k))).filter s0.toClient) ∧
+    pktOK [1, 2, 3, 4, 5] (wrap32 (synX.seq + 1)) [] synX ∧
+    handedIn k true (Model.run cfg0 F histX).2.flatten = [[1, 2], [3, 4, 5]] := by
+  refine ⟨by rfl, by decide, by decide, by decide, by decide⟩
+
 
 end Tins.Props.C07
